@@ -979,7 +979,7 @@ def __loadxmlparts(z, manifest, doc, objectpath):
         ##########################################################
         try:
             xmlpart = z.read(xmlfile).decode("utf-8")
-            doc._parsing = xmlfile
+            doc._parsing = xmlfile[len(objectpath):] # the part's name, also for a subobject
 
             parser = make_parser()
             parser.setFeature(handler.feature_namespaces, 1)
